@@ -54,6 +54,11 @@ Definition write_desc (tag size : N) : wprog N :=
     WRet (1 + nbytes).
 Close Scope wprog_scope.
 
+(** [clamp_desc_size] (after its [stream_position] call, which the loops below make with
+    [get_pos]): [min(desc_size as u64, end.saturating_sub(pos)) as u32]; the cast is the
+    identity because the minimum is at most [desc_size < 2^32] *)
+Definition clamp_desc_size (desc_size e pos : N) : N := N.min desc_size (e - pos).
+
 (** ** SLConfigDescriptor (an empty struct) *)
 Inductive slconfig := mkSlConfig.
 
@@ -182,6 +187,8 @@ Fixpoint decconfig_loop (fuel : nat) (current e : N) (dec_specific : option decs
   | S f =>
       if current <? e then
         '(desc_tag, desc_size) <- read_desc ;;
+        pos <- get_pos ;;
+        let desc_size := clamp_desc_size desc_size e pos in
         if desc_tag =? 5 then
           d <- dec_decspecific desc_size ;;
           c <- get_pos ;;
@@ -266,6 +273,8 @@ Fixpoint esdesc_loop (m : mode) (fuel : nat) (current e : N)
   | S f =>
       if current <? e then
         '(desc_tag, desc_size) <- read_desc ;;
+        pos <- get_pos ;;
+        let desc_size := clamp_desc_size desc_size e pos in
         if desc_tag =? 4 then
           d <- dec_decconfig m desc_size ;;
           c <- get_pos ;;
@@ -338,6 +347,8 @@ Fixpoint esds_loop (m : mode) (fuel : nat) (current e : N) (es_desc : option esd
   | S f =>
       if current <? e then
         '(desc_tag, desc_size) <- read_desc ;;
+        pos <- get_pos ;;
+        let desc_size := clamp_desc_size desc_size e pos in
         if desc_tag =? 3 then
           d <- dec_esdesc m desc_size ;;
           c <- get_pos ;;
